@@ -30,6 +30,12 @@ type pointWriter struct {
 	IDs    []*types.Var // string parameters
 	Begin  *ast.CallExpr
 	Commit *ast.CallExpr
+	// Entry is the function the message handlers call with the batch: F itself, or a
+	// wrapper of F (same package, takes the batch, F's only caller besides tests);
+	// EntryBatch is its data.Points parameter.  Pre-checks and the in-batch
+	// de-duplication may live there.
+	Entry      *kit.Func
+	EntryBatch *types.Var
 }
 
 type storeModel struct {
@@ -37,6 +43,7 @@ type storeModel struct {
 	sql       *kit.SQLModel
 	writers   []*pointWriter
 	rootField *types.Var // field that caches meta.root_id
+	wrappers  map[*kit.Func]*pointWriter
 }
 
 func isErrorType(t types.Type) bool {
@@ -104,6 +111,41 @@ func newStoreModel(c *kit.Ctx) *storeModel {
 				w.Commit = call
 			}
 		}
+		w.Entry, w.EntryBatch = f, w.Batch
+		for hop := 0; hop < 2; hop++ {
+			var outer *kit.Func
+			direct := false
+			distinct := map[*kit.Func]bool{}
+			for _, g := range c.P.Funcs("store") {
+				if g.Body == nil || g == w.Entry {
+					continue
+				}
+				for _, call := range g.AllCalls(false) {
+					if g.CalleeFunc(call) != w.Entry {
+						continue
+					}
+					root := g.Root()
+					if isMsgHandler(root) {
+						direct = true
+					}
+					distinct[root] = true
+					outer = root
+				}
+			}
+			if direct || len(distinct) != 1 || outer == w.F || outer == w.Body || !sameRecvType(outer, w.F) {
+				break
+			}
+			var bp *types.Var
+			for _, p := range outer.Params() {
+				if kit.IsNamedType(p.Type(), dataPkg, "Points") {
+					bp = p
+				}
+			}
+			if bp == nil {
+				break
+			}
+			w.Entry, w.EntryBatch = outer, bp
+		}
 		m.writers = append(m.writers, w)
 	}
 	// root id cache: destination of the root_id column in the scan of `SELECT … FROM meta`
@@ -131,6 +173,40 @@ func newStoreModel(c *kit.Ctx) *storeModel {
 		}
 	}
 	return m
+}
+
+// sameRecvType: both are methods of the same named type.
+func sameRecvType(a, b *kit.Func) bool {
+	ra, rb := recvNamed(a), recvNamed(b)
+	return ra != nil && ra == rb
+}
+
+func recvNamed(f *kit.Func) *types.TypeName {
+	if f.Decl == nil || f.Obj == nil {
+		return nil
+	}
+	sig, ok := f.Obj.Type().(*types.Signature)
+	if !ok || sig.Recv() == nil {
+		return nil
+	}
+	t := sig.Recv().Type()
+	if p, ok := t.(*types.Pointer); ok {
+		t = p.Elem()
+	}
+	if n, ok := t.(*types.Named); ok {
+		return n.Obj()
+	}
+	return nil
+}
+
+// isMsgHandler: a function that receives a bus message.
+func isMsgHandler(f *kit.Func) bool {
+	for _, p := range f.Params() {
+		if kit.IsNamedType(p.Type(), natsPkg, "Msg") {
+			return true
+		}
+	}
+	return false
 }
 
 // owns reports whether s is executed by this writer: in its transaction function
@@ -196,11 +272,41 @@ func (m *storeModel) writerOf(f *kit.Func, call *ast.CallExpr) *pointWriter {
 		return nil
 	}
 	for _, w := range m.writers {
-		if w.F == cf {
+		if w.F == cf || w.Entry == cf {
 			return w
 		}
 	}
-	return nil
+	// a thin wrapper: a function of the package that hands its own batch parameter
+	// straight to a writer (kept for callers that do not care about the detailed result)
+	if m.wrappers == nil {
+		m.wrappers = map[*kit.Func]*pointWriter{}
+		for _, g := range m.c.P.Funcs("store") {
+			if g.Body == nil || g.Lit != nil {
+				continue
+			}
+			var bp *types.Var
+			for _, p := range g.Params() {
+				if kit.IsNamedType(p.Type(), dataPkg, "Points") {
+					bp = p
+				}
+			}
+			if bp == nil {
+				continue
+			}
+			for _, call := range g.AllCalls(false) {
+				for _, w := range m.writers {
+					if g != w.F && g != w.Entry && g != w.Body && g.CalleeFunc(call) == w.F && sameRecvType(g, w.F) {
+						for _, a := range call.Args {
+							if kit.ObjOf(g.Info(), a) == types.Object(bp) {
+								m.wrappers[g] = w
+							}
+						}
+					}
+				}
+			}
+		}
+	}
+	return m.wrappers[cf]
 }
 
 // isRootIDExpr recognises a read of the cached root id: the field itself or
